@@ -30,6 +30,7 @@ def run(rep, ctx):
     rep.run_rule("C10.R1", "Scalar and Array go through the same database operation with operands on their own sides", r1_one_impl, ctx)
     rep.run_rule("C10.R2", "pairing of two list/tuple operands is length-guarded", r2_zip, ctx)
     rep.run_rule("C10.R3", "locals read after the per-element loop are definitely assigned", r3_definite, ctx)
+    rep.run_rule("C10.R3", "locals read after the per-element loop are definitely assigned", r3b_result_quantity, ctx)
     rep.run_rule("C10.R4", "result container: tuple iff IsTuple(), which depends only on the iterated operands", r4_container, ctx)
     rep.run_rule("C10.R5", "FromScalars converts every element with the unit given to the constructor", r5_from_scalars, ctx)
     rep.run_rule("C10.R6", "the pair generator passes operands through unchanged", r6_passthrough, ctx)
@@ -160,6 +161,21 @@ def r2_zip(rep, ctx):
                 rep.check(strict or guarded, "C10.R2", "%s.%s:%s" % (cname, meth, norm(ast.unparse(c))), "the pairing of both operands is length-checked (%s)" % ("strict zip" if strict else "a differing length must-raise before the zip"),
                           "zip over the two operand containers is neither strict nor preceded by a length comparison that raises: operands of different lengths are silently truncated", node=c, fn=fn)
     rep.floor("C10.R2", "zip sites over two operands", n, 1)
+    # the length check is the entry of the branch that pairs two iterated operands: nothing in that
+    # branch (an early return for empty operands, say) may run before it
+    fn = m.method("_ValueGenerator", "__iter__")
+    cfg = CFG(fn.node)
+    for c in own_nodes(fn.node):
+        if isinstance(c, ast.Call) and isinstance(c.func, ast.Name) and c.func.id == "zip" and len(c.args) >= 2 and not any(k.arg == "strict" for k in c.keywords):
+            st = c
+            while not isinstance(st, ast.stmt):
+                st = st._parent
+            block_owner = st._parent
+            block = block_owner.orelse if (isinstance(block_owner, ast.If) and st in block_owner.orelse) else getattr(block_owner, "body", [])
+            first = block[0] if block else None
+            ok = isinstance(first, ast.If) and "len(" in ast.unparse(first.test) and cfg.must_raise_from([(cfg.node_of(first.test), "T")]) if first is not None and isinstance(first, ast.If) and isinstance(first.test, ast.Compare) and isinstance(first.test.ops[0], ast.NotEq) else False
+            rep.check(bool(ok), "C10.R2", "_ValueGenerator.__iter__:length-check-first", "the branch pairing two iterated operands starts with the length check",
+                      "the branch that pairs two list/tuple operands does something before comparing their lengths (an early exit for an empty operand lets [] + [1.0] through)", node=first or st, fn=fn)
 
 
 def r3_definite(rep, ctx):
@@ -176,6 +192,28 @@ def r3_definite(rep, ctx):
                 rep.check(ok, "C10.R3", "Array._DoOperation:%s@%s" % (x.id, norm(ast.unparse(node))[:50]), "`%s` is assigned on every path to this return" % x.id,
                           "`%s` is read at the return but only assigned inside the per-element loop: with empty operands the loop does not run and the read raises UnboundLocalError" % x.id, node=node, fn=fn)
     rep.floor("C10.R3", "locals read at returns", n, 4)
+
+
+def r3b_result_quantity(rep, ctx):
+    """The quantity of every result is the one returned by the database operation."""
+    m = ctx.model
+    fn = m.method("Array", "_DoOperation")
+    res = Resolver(m, fn)
+    n = 0
+    for r in own_nodes(fn.node):
+        if isinstance(r, ast.Return) and isinstance(r.value, ast.Call) and r.value.args:
+            n += 1
+            t = res.term(r.value.args[0])
+            bad = []
+            for a in alternatives(t):
+                if a == ("const", None):
+                    continue  # the 'no element yet' marker, replaced before use
+                if a[0] == "sub" and a[2] == ("const", 0) and a[1][0] == "call" and any(x[0] == "call" and x[1] == ("name", "getattr") for x in alternatives(a[1][1])):
+                    continue
+                bad.append(show(a, 60))
+            rep.check(not bad, "C10.R3", "Array._DoOperation:result-quantity:%s" % norm(ast.unparse(r))[:50], "the result's quantity is the one the database operation returned",
+                      "the result can be built with %s instead of the quantity computed by the database operation (e.g. 2 / empty-array keeps 'm' instead of '1/m')" % bad, node=r, fn=fn)
+    rep.floor("C10.R3", "result constructions", n, 2)
 
 
 def r4_container(rep, ctx):
